@@ -207,11 +207,15 @@ func checkC15(c *Ctx, r *Report) {
 
 // C19 — init segments built through the API are consistent (narrow clauses).
 func checkC19(c *Ctx, r *Report) {
-	r.Explanation = "Narrow clauses: in InitSegment.AddEmptyTrack the track id passed to CreateEmptyTrak and to CreateTrex is the same definition and depends on the number of existing tracks; " +
+	r.Explanation = "L-RAWDEFAULT: where a descriptor setter gives a parameter a default when empty (wvtt config, stpp namespace), the raw parameter is not also stored or handed to a constructor; Narrow clauses: in InitSegment.AddEmptyTrack the track id passed to CreateEmptyTrak and to CreateTrex is the same definition and depends on the number of existing tracks; " +
 		"mvhd.NextTrackID is stored on every path (unconditionally) from that id; the trak and the trex are both attached on every path; " +
 		"MdhdBox.SetLanguage overwrites (does not combine with the old value); the SetAACDescriptor arm that sets parametric stereo also sets SBR and the extension frequency; (FWD-SWAP) nowhere in the repository are two same-typed parameters passed crosswise to a callee whose parameters have the same two names; (FWD) when a function of the init-segment API forwards to a callee that has a parameter of the same name and type as one of its own parameters, the argument in that position depends on that parameter (no swapped / substituted flags); " +
 		"(L-COPYMUT) the descriptor setters (and the rest of mp4/avc/hevc) do not call a mutating pointer-receiver method on a local copy of a field (rec := box.Rec; rec.Add(…)): the parameter sets handed to SetHEVCDescriptor must reach the box; (L-APPENDALIAS) MoovBox.AddChild and every other function of package mp4 that appends to a truncated slice x[:k] reads no tail x[j:] of the old slice afterwards (a trak inserted after the last trak must not overwrite the box that followed it); (T-REACH) every guarded lookup into the AC-3 specification tables (sample rates, bit rates, channel modes: used by SetAC3Descriptor/SetEC3Descriptor and the dac3/dec3 boxes) admits every index below the table length: no dominating test is tighter than index < len(table); (O-ERR) errors from the descriptor builders are looked at on every path. Does not decide encode/decode equality of the built tree or golden-file equality."
 	ruleSetterOverwrites(c, r)
+	if n := ruleRawBeforeDefault(c, r, func(f *ssa.Function) bool { return strings.HasPrefix(SSAFuncName(f), "mp4.") }); n < 2 {
+		r.Undecided("L-RAWDEFAULT", "scope", "", "defaulted parameters (SetWvttDescriptor config, SetStppDescriptor namespace) not found")
+	}
+	requireFixture(r, "L-RAWDEFAULT", "describeWrong", func(fc *Ctx, s *Report) { ruleRawBeforeDefault(fc, s, nil) })
 	ruleCopyMutated(c, r, func(f *ssa.Function) bool {
 		return strings.HasPrefix(SSAFuncName(f), "mp4.") || strings.HasPrefix(SSAFuncName(f), "hevc.") || strings.HasPrefix(SSAFuncName(f), "avc.")
 	})
